@@ -173,8 +173,7 @@ func c06(c *Ctx) {
 			if _, isDefer := ins.(*ssa.Defer); isDefer {
 				return false
 			}
-			st := ir.Callee(cc).Static
-			return st != nil && st.Name() == "SetValue" && len(cc.Common().Args) == 2
+			return setValueArg(cc) != nil
 		}
 		succeeds := func(rv retVia) bool {
 			facts := factsAt(rv.ret.Block(), rv.via)
@@ -192,7 +191,7 @@ func c06(c *Ctx) {
 				return
 			}
 			nSet++
-			arg := ir.Resolve(ins.(ssa.CallInstruction).Common().Args[1])
+			arg := ir.Resolve(setValueArg(ins.(ssa.CallInstruction)))
 			for _, rv := range returnsFrom([]ir.Point{ir.After(ins)}, ir.Search{StopInstr: isSet}) {
 				if !succeeds(rv) {
 					continue
@@ -368,4 +367,53 @@ func (c *Ctx) curveAssume(tb *ir.TB) func(v ssa.Value) (ranges.AV, bool) {
 		}
 		return ranges.AV{}, false
 	}
+}
+
+// setValueArg: the value a call publishes as the curve's current value: the argument of SetValue itself, or the
+// argument handed to a curves-package helper that passes that parameter to SetValue on every path (publish(v)).
+func setValueArg(cc ssa.CallInstruction) ssa.Value {
+	st := ir.Callee(cc).Static
+	if st == nil {
+		return nil
+	}
+	args := cc.Common().Args
+	if st.Name() == "SetValue" && len(args) == 2 {
+		return args[1]
+	}
+	if load_FuncPkgPath(st) != PkgCurves || len(st.Blocks) == 0 || len(st.Blocks) > 8 {
+		return nil
+	}
+	// the helper must pass SetValue(param) on every path to a return
+	var prm *ssa.Parameter
+	isInner := func(ins ssa.Instruction) bool {
+		c2, ok := ins.(ssa.CallInstruction)
+		if !ok {
+			return false
+		}
+		if _, isDefer := ins.(*ssa.Defer); isDefer {
+			return false
+		}
+		s2 := ir.Callee(c2).Static
+		if s2 == nil || s2.Name() != "SetValue" || len(c2.Common().Args) != 2 {
+			return false
+		}
+		p, ok := ir.Resolve(c2.Common().Args[1]).(*ssa.Parameter)
+		if !ok {
+			return false
+		}
+		if prm != nil && prm != p {
+			return false
+		}
+		prm = p
+		return true
+	}
+	if len(returnsFrom([]ir.Point{{Block: st.Blocks[0]}}, ir.Search{StopInstr: isInner})) > 0 || prm == nil {
+		return nil
+	}
+	for i, q := range st.Params {
+		if q == prm && i < len(args) {
+			return args[i]
+		}
+	}
+	return nil
 }
